@@ -277,11 +277,12 @@ def cmd_recheck(a):
     """run further checks against mutants recorded as missed: --ids M0001,M0002 (default: all missed) --checks C02,C11 (default: the rest of the file's list)"""
     p2 = load("phase2.jsonl")
     ids = set(a.ids.split(",")) if a.ids else {c["id"] for c in p2 if c["verdict"] in ("missed", "check_error")}
-    wt = os.path.join(ROOT, "p2-wt")
-    bd = os.path.join(ROOT, "p2-build")
+    si, sn = (int(x) for x in a.shard.split("/"))
+    wt = os.path.join(ROOT, "p2-wt" + (str(si) if si else ""))
+    bd = os.path.join(ROOT, "p2-build" + (str(si) if si else ""))
     ensure_wt(wt, build=False)
-    for c in p2:
-        if c["id"] not in ids:
+    for k, c in enumerate(p2):
+        if c["id"] not in ids or k % sn != si:
             continue
         already = {r.split(":")[0] for r in c.get("runs", [])}
         checks = a.checks.split(",") if a.checks else [x for x in FILES[c["file"]] if x not in already]
@@ -291,6 +292,9 @@ def cmd_recheck(a):
         r = {"id": c["id"], "file": c["file"], "line": c["line"], "op": c["op"], "before": c["before"], "after": c["after"], "verdict": "missed", "runs": []}
         for chk in checks:
             env = dict(os.environ, REPO=wt, VERIF_REPO=wt, BUILD=bd, VERIF_NO_EVIDENCE="1")
+            if a.fast:
+                f = c["file"]
+                env["VX_SCHEMAS"] = "2.18.0,2.20.3,2.21.2" if "/v2/" in f else "1.6.0,1.15.0,1.18.0-os" if "/v1/" in f else "1.6.0,1.18.0-os,2.18.0,2.21.2"
             rc, out = sh("timeout 2400 bin/vx check %s --tier quick" % chk, cwd="/verif", timeout=2500, env=env)
             nv = len([l for l in out.split("\n") if l.startswith("VIOLATION")])
             r["runs"].append("%s:exit=%d:viol=%d" % (chk, rc, nv))
